@@ -128,8 +128,14 @@ def check(case, stats):
     pots = list(st.pots)
     raked = sum(p.raked_amount for p in pots)
     live = sum(st.statuses)
-    if live == 0:
-        stats.count('excluded:all_players_mucked_should_not_happen')
+    if live == 0 and any(p.unraked_amount > tol for p in pots):
+        killed = [o for o in st.operations
+                  if type(o).__name__ == 'HandKilling']
+        kind = 'pot_unawarded_last_player_killed' if killed else \
+            'pot_unawarded_all_players_mucked'
+        out.append(V(ID, kind, '',
+                     f'nobody is left in the hand and the pot {pots} is'
+                     f' never awarded; stacks {st.stacks}'))
     if any(abs(b) > tol for b in st.bets):
         out.append(V(ID, 'bets_left_on_table', '',
                      f'final bets {st.bets}'))
